@@ -5,7 +5,7 @@ use crate::graph::*;
 use crate::props::c02::GCase;
 use crate::props::c03::any_cfg_depth;
 use crate::runner::*;
-use crate::fail;
+use crate::{ensure, fail};
 use proptest::prelude::*;
 use serde_json::json;
 use std::time::Duration;
@@ -132,12 +132,72 @@ impl SubCheck for Forests {
     }
 }
 
+/// Soundness with the harness owning the schedule (C05's cooperative scheduler; map operations and
+/// model code are scheduling points): a worker that loses the race for a join state must not take
+/// its own state for a dead end.
+pub struct SoundnessScheduled;
+impl SubCheck for SoundnessScheduled {
+    type Case = crate::props::c05::SchedCase;
+    fn name(&self) -> &'static str {
+        "soundness_under_owned_schedules"
+    }
+    fn cases(&self, tier: Tier) -> u32 {
+        tier.pick(2500, 40000)
+    }
+    fn max_shrink_iters(&self) -> u32 {
+        600
+    }
+    fn strategy(&self, tier: Tier) -> BoxedStrategy<Self::Case> {
+        crate::props::c03::WitnessesScheduled.strategy(tier)
+    }
+    fn check(&self, c: &Self::Case, cov: &mut Cov) -> Result<(), Fail> {
+        use crate::props::c05::{run_scheduled, Joined, JOIN_WAIT_S};
+        let out = run_scheduled(c, std::time::Duration::from_secs(JOIN_WAIT_S));
+        cov.eval();
+        if out.stuck {
+            fail!("inconclusive/scheduler-watchdog", "a controlled thread did not reach a scheduling point within the watchdog");
+        }
+        if out.deadlock.is_some() || !matches!(out.joined, Joined::Returned) {
+            fail!("c11/scheduled/run-did-not-end-normally", "{} threads={} block={}: deadlock={:?}", c.strat.label(), c.threads, c.block, out.deadlock);
+        }
+        let Ok(disc) = &out.discovered else { return Ok(()) };
+        let g = &c.g;
+        for (k, p) in g.props.iter().enumerate() {
+            if p.exp != Exp::Eventually {
+                continue;
+            }
+            let violated = g.eventually_violated(&p.on);
+            let got = disc.contains(&PROP_NAMES[k]);
+            ensure!(!got || violated, "c11/scheduled/false-alarm", "{} with {} workers, block {}: eventually-property {} has a counterexample although every maximal in-boundary path satisfies it (graph {:?})", c.strat.label(), c.threads, c.block, PROP_NAMES[k], g);
+            if g.is_forest() {
+                ensure!(got == violated, "c11/scheduled/forest-counterexample-missed", "{} with {} workers: eventually-property {} on a forest: reported {} but a violating path {}", c.strat.label(), c.threads, PROP_NAMES[k], got, if violated { "exists" } else { "does not exist" });
+            }
+            cov.label_if(got, "reported_and_genuine");
+            cov.label_if(!got && !violated, "holds_and_not_reported");
+        }
+        let workers: std::collections::BTreeSet<&str> = out.visits.iter().map(|v| v.thread.as_str()).collect();
+        cov.label(c.strat.label());
+        cov.label_if(workers.len() >= 2, "two_workers_did_work");
+        cov.label_if(g.shape == "Diamonds", "diamond_chain");
+        if workers.len() >= 2 {
+            cov.nontrivial(c);
+            if cov.wants_sample() {
+                cov.sample(json!({"graph": g, "strategy": c.strat.label(), "threads": c.threads, "block": c.block, "discovered": disc}));
+            }
+        }
+        Ok(())
+    }
+    fn mandatory(&self) -> Vec<&'static str> {
+        vec!["bfs", "dfs", "on_demand", "two_workers_did_work", "diamond_chain", "reported_and_genuine", "holds_and_not_reported"]
+    }
+}
+
 pub fn spec() -> PropSpec {
     PropSpec {
         id: "C11",
         level: "exploration",
         rule: "Cases = (generated graph model with >= 1 eventually-property plus others; all shapes incl. cycles/joins/boundaries for soundness under {bfs,dfs,on-demand,simulation} x threads x finish conditions; forest-shaped models for exactness under {bfs,dfs,on-demand} x threads). Oracle: 'some maximal in-boundary path avoids the condition' = a dead end (no in-boundary successor) or a cycle reachable inside the avoiding subgraph, computed independently. Soundness: reported => oracle; forests: reported <=> oracle (unless the run stopped early because every property had a discovery). Non-trivial = model in which some maximal path violates an eventually-condition while some reachable state satisfies it; distinct by hash of (graph, config).",
         assumptions: vec!["the documented false negatives at joins and cycles are never demanded"],
-        subs: vec![Box::new(AnyShape), Box::new(Forests)],
+        subs: vec![Box::new(AnyShape), Box::new(Forests), Box::new(SoundnessScheduled)],
     }
 }
